@@ -109,6 +109,16 @@ static void doG12s(const vx_cmd* c)
 	if (e != ERR_OK) { free(P); return; }
 	no = memNonZeroSize(P->p, G12S_FIELD_SIZE * P->l / 512); mo = P->l / 8;
 	putG12sParams(P, no);
+	if (vxInt(c, "dirty", 0))
+	{	/* g12s.h: "unused octets may be set arbitrarily": the same set in an object whose unused octets are all FF
+		   (p, q: the first half for l = 256; a, b, xP, yP: no octets) */
+		g12s_params* D = (g12s_params*)xalloc(sizeof(*D)); size_t pl = G12S_FIELD_SIZE * P->l / 512, ql = G12S_ORDER_SIZE * P->l / 512;
+		memset(D, 0xFF, sizeof(*D)); D->l = P->l; D->n = P->n;
+		memcpy(D->p, P->p, pl); memcpy(D->q, P->q, ql);
+		memcpy(D->a, P->a, no); memcpy(D->b, P->b, no); memcpy(D->xP, P->xP, no); memcpy(D->yP, P->yP, no);
+		free(P); P = D;
+		jInt("rcValDirty", g12sParamsVal(P));
+	}
 	priv = (octet*)xalloc(mo); pub = (octet*)xalloc(2 * no); sig = (octet*)xalloc(2 * mo);
 	hash = vxHex(c, "hash", &hl); if (!hash || hl != mo) { octet* h2 = (octet*)xalloc(mo); if (hash) memcpy(h2, hash, hl < mo ? hl : mo); free(hash); hash = h2; }
 	e = g12sKeypairGen(priv, pub, P, tapeStep, td);
